@@ -301,7 +301,7 @@ class BuildError(RuntimeError):
 # --------------------------------------------------------------------------------------------
 # running cases
 # --------------------------------------------------------------------------------------------
-def run_lines(cmd, cases, shards=NCPU, timeout=900, tag="x", cwd=None):
+def run_lines(cmd, cases, shards=NCPU, timeout=900, tag="x", cwd=None, per_shard=200):
     """Feed `cases` (list of single-line strings) to `cmd` on stdin, sharded; returns list of output lines
     (same length). A process that dies or hangs yields 'CRASH'/'HANG' for its first unanswered case and
     'SKIPPED' for the rest of the shard."""
@@ -309,7 +309,7 @@ def run_lines(cmd, cases, shards=NCPU, timeout=900, tag="x", cwd=None):
         return []
     os.makedirs(WORK, exist_ok=True)
     n = len(cases)
-    shards = max(1, min(shards, (n + 199) // 200))
+    shards = max(1, min(shards, (n + per_shard - 1) // per_shard))
     size = (n + shards - 1) // shards
     chunks = [cases[i:i + size] for i in range(0, n, size)]
 
@@ -462,8 +462,9 @@ class Ctx:
     def run_both(self, st, cases):
         impl_cmd, model_cmd = self.cmds(st)
         with ThreadPoolExecutor(max_workers=2) as ex:
-            fi = ex.submit(run_lines, impl_cmd, cases, NCPU, st.timeout, "impl")
-            fm = ex.submit(run_lines, model_cmd, cases, NCPU, st.timeout, "model")
+            ps = getattr(st, "per_shard", 200)
+            fi = ex.submit(run_lines, impl_cmd, cases, NCPU, st.timeout, "impl", None, ps)
+            fm = ex.submit(run_lines, model_cmd, cases, NCPU, st.timeout, "model", None, ps)
             return fi.result(), fm.result()
 
     def fails_property(self, st, case):
@@ -495,7 +496,10 @@ class Ctx:
         return cur
 
     def run_stream(self, st):
-        cases = load_corpus(self.pid, st.name) + list(st.cases)
+        corpus = load_corpus(self.pid, st.name)
+        if getattr(st, "prepare", None):
+            corpus = [st.prepare(c) for c in corpus]     # e.g. re-annotate a scenario with the current model's expectations
+        cases = corpus + list(st.cases)
         n_corpus = len(cases) - len(st.cases)
         t0 = time.time()
         impl, model = self.run_both(st, cases)
